@@ -163,10 +163,10 @@ def build(case):
     for kd in keys:
         size = 1 if kd["shape"] in ("()", "(1,)") else kd["k"]
         params.append((kd["name"], [half(rng) for _ in range(size)]))
-        readers[kd["name"]] = [nz_int(rng) for _ in range(READER_LEN)]
+        readers[kd["name"]] = [nz_int(rng, 2) for _ in range(READER_LEN)]
     pr["params"], pr["readers"] = params, readers
     # perturbed caller's values for the batched keys (metamorphic clause)
-    pr["params_alt"] = [(k, [x + 3 + i for i, x in enumerate(v)]) for k, v in params]
+    pr["params_alt"] = [(k, [x + 1 + i for i, x in enumerate(v)]) for k, v in params]
 
     # points
     def pts(n, width):
@@ -189,7 +189,7 @@ def build(case):
             nrows = B
             if case.get("malformed") == "size_mismatch" and name == batched[0]:
                 nrows = B + 1
-            col = rng.sample([Fraction(x, 2) for x in range(-6, 7)], nrows)
+            col = rng.sample([Fraction(x, 2) for x in range(-4, 5)], nrows)
             rows.append((name, [[x] for x in col]))
         if case.get("malformed") == "unknown_key":
             rows.append(("zz", [[half(rng)] for _ in range(B)]))
@@ -282,7 +282,7 @@ def build(case):
             mo = 1 if ob.get("slice") else m
             orows = []
             for name in ob.get("eq_keys", []):
-                col = rng.sample([Fraction(x, 2) for x in range(-6, 7)], B)
+                col = rng.sample([Fraction(x, 2) for x in range(-4, 5)], B)
                 orows.append((name, [[x] for x in col]))
             cd["obs"] = {"pin": pts(B, din), "val": [[Fraction(rng.randint(-3, 3)) for _ in range(mo)] for _ in range(B)],
                          "rows": orows, "slice": bool(ob.get("slice"))}
